@@ -13,6 +13,12 @@ CHECKS = {
         note="Trusted: the SimReader/SimWriter stubs, the harness's byte comparison, the workload generator (only as a source of files). Workloads whose fault-free round trip fails on the tree are skipped (C01 territory). Release profile as shipped."),
 }
 
+CHECKS["C11"] = dict(
+    engine="simstore-blob", category="fault_enumeration", design_ref="DESIGN.md 5.3",
+    technique="deterministic simulation of the blob store: torn writes (every prefix, zero-filled and old-tail variants), destroyed headers, bit flips, foreign objects, and a memory budget enumerated around the exact expanded size; real zstd as the classifier of 'is a frame'; replayable explicit plans",
+    text="For each generated file the blob written by compress_zstd is subjected to every torn-write prefix (complete for blobs up to 4 KiB), header destruction, bit flips and replacement, and decompress_zstd is called with capacities 0, 1, E-2..E+2, E+2^k and seeded values around the exact expanded size E. Oracle: intact blob and capacity >= E gives exactly F; capacity < E gives Err; an object zstd rejects gives Err; never a panic, never truncated data as Ok. Single store faults are enumerated completely per workload; workloads are sampled from the seed.",
+    note="Trusted: the zstd C library as classifier of well-formed frames, the harness's byte comparison. Damaged objects that zstd still accepts (no checksum in the bulk API) are not executed/judged. Capacities beyond E + 64 MiB are not explored. Workloads whose fault-free round trip fails are skipped.")
+
 NOT_APPLICABLE = {
     "C01": "pure function of the input file (for all byte strings F): no schedule, I/O outcome, resource limit or crash point in the statement; truncating/flipping foreign input is input generation, not fault injection. Incidental coverage only (fault-free round trip is a precondition of every C11-C13 workload and rejections are counted).",
     "C02": "pure function of the input stream and the verify flag; no seam for the environment to vary. Incidental: the unperturbed runs of C08 and the current-build reads of C04 execute the identity.",
@@ -27,7 +33,6 @@ NOT_APPLICABLE = {
 PENDING = {
     "C04": "applicable (upgrade simulation, DESIGN.md 5.4) but the check is not built yet in this revision; not claimed until it runs",
     "C08": "applicable (buggify at the estimator seam, DESIGN.md 5.5) but the check is not built yet in this revision; not claimed until it runs",
-    "C11": "applicable (torn blob / capacity budget, DESIGN.md 5.3) but the check is not built yet in this revision; not claimed until it runs",
     "C12": "applicable (C ABI caller simulation, DESIGN.md 5.2) but the check is not built yet in this revision; not claimed until it runs",
     "C14": "applicable (baton scheduler, DESIGN.md 5.6) but the check is not built yet in this revision; not claimed until it runs",
 }
